@@ -30,6 +30,8 @@ pub fn analyze(ops: &[Op]) -> Effects {
         match op {
             Op::StateRead(StateRead::KeyRangeExtern) => effects |= Effects::KeyRangeExtern,
             Op::StateRead(StateRead::KeyRange) => effects |= Effects::KeyRange,
+            Op::StateRead(StateRead::PostKeyRangeExtern) => effects |= Effects::PostKeyRangeExtern,
+            Op::StateRead(StateRead::PostKeyRange) => effects |= Effects::PostKeyRange,
             Op::Access(Access::ThisAddress) => effects |= Effects::ThisAddress,
             Op::Access(Access::ThisContractAddress) => effects |= Effects::ThisContractAddress,
             _ => {}
